@@ -185,7 +185,7 @@ func init() {
 		},
 		Rule: "histories with ItemAlloc/ItemAddRef/ItemDecRef counting callbacks installed; the harness plays the application (own reference on items it creates, releases every item returned by GetItem/Min/Max, borrows items in visitors); no DecRef below zero, every returned / visitor-passed / cached-and-reachable item has count>0, all counts 0 once store and snapshots are closed. Non-trivial = file-backed visit over evicted items, balance verified at a close, and a snapshot closed or store re-opened.",
 		Assumptions: []string{"Get() is not used: it hands the value buffer to the caller and therefore keeps the item referenced by design", "CopyTo and file faults are outside the property's list"}})
-	reg(&Spec{Prop: "C18", Profile: profIter, Opts: RunOpts{FreeCheck: true},
+	reg(&Spec{Prop: "C18", Profile: profIter, Opts: RunOpts{FreeCheck: true, RefsQuiescent: true},
 		NonTrivial: func(c *Case, ev map[string]int) bool {
 			return any(ev, "iter_closed_inside", "iter_abandoned_inside", "nested:set", "nested:del")
 		},
